@@ -1,5 +1,5 @@
 (* C18 — codec results do not depend on call history or on value/pointer form.  Statements only. *)
-Require Import GC.Base.Bytes GC.Codec.Types GC.Codec.Codec GC.Codec.Cache.
+Require Import GC.Base.Bytes GC.Codec.Types GC.Codec.TypeInfo GC.Codec.Codec GC.Codec.Cache GC.Schemes.Layouts.
 
 (* For every program (set of struct types), every text-(un)marshaler behaviour and every history of Marshal /
    Unmarshal calls in any of the three forms: each call returns exactly what the same call returns on the
@@ -22,7 +22,7 @@ Theorem C18_invariant : forall desc cb c o, cache_ok desc c -> cache_ok desc (sn
 Proof. intros desc cb c o H. exact (proj2 (run_call_cold desc cb c o H)). Qed.
 
 Theorem C18_errors_every_call : forall desc cb c ty f sv x, cache_ok desc c ->
-  GC.Codec.TypeInfo.type_info (desc ty) = Err x ->
+  type_info (desc ty) = Err x ->
   fst (run_call desc cb c (CMarshal ty f sv)) = OMarshal (Err x) (ty, depth_of f).
 Proof.
   intros desc cb c ty f sv x Hc Hx.
@@ -31,7 +31,7 @@ Proof.
 Qed.
 
 Example C18_example :
-  let desc := fun _ : nat => GC.Schemes.Layouts.m_layout_md5 in
+  let desc := fun _ : nat => m_layout_md5 in
   let h := [36;49;36;115;36] ++ repeat 46 22 in
   fst (run_calls desc std_cb [] [CUnmarshal 0 ByPtr h; CUnmarshal 0 ByPtrPtr h])
   = map (fun o => fst (run_call desc std_cb [] o)) [CUnmarshal 0 ByPtr h; CUnmarshal 0 ByPtrPtr h].
